@@ -19,6 +19,8 @@ def run(repo, res, tier):
         res.oblige("T7", s + " is not reached after END", ok=s not in bad)
     lexrules.rule_lazy(repo, res)
     lexrules.rule_lookahead(repo, res)
+    from .. import langrules
+    langrules.rule_lookahead_lang(repo, res, langrules.analyse(repo))
     apirules.rule_f1(repo, res, "__init__")
     if "new" in repo.modules:
         apirules.rule_f1(repo, res, "new")
